@@ -413,6 +413,18 @@ class NPShim:
     def sum(self, x, *a, **k):
         return x.sum() if isinstance(x, A) else real_np.sum(x, *a, **k)
 
+    def nansum(self, x, *a, **k):
+        if isinstance(x, FakeSeries):
+            x = x.arr
+        if not isinstance(x, A):
+            return real_np.nansum(x, *a, **k)
+        if a or k:
+            raise Unsupported("np.nansum with axis / options on symbolic data")
+        from .values import isnan as _isnan, total as _total
+        if x.dtype.kind == "f":
+            return _total([ite(_isnan(c), 0.0, c) for c in x.cells], 0.0)
+        return _total(list(x.cells), 0)          # integers have no NaN: the int64 null sentinel is NOT skipped by NumPy
+
     def median(self, x, *a, **k):
         if isinstance(x, A):
             raise Unsupported("np.median on symbolic data")
